@@ -63,12 +63,12 @@ def ast_conv(e, f):
 # ----------------------------------------------------------------------------- op tables
 # kinds: n nat, s scalar, v vector, e expr, p precision (+ path on the executor side, + table on the model side)
 OPS1 = {"set": ("O1Set", "nv"), "get": ("O1Get", "n"), "idx": ("O1Idx", "n"), "idxset": ("O1IdxSet", "nv"),
-        "idxelem": ("O1IdxElem", "nns"), "coord": ("O1Coord", "n"), "nnodes": ("O1NNodes", ""),
+        "idxelem": ("O1IdxElem", "nns"), "coord": ("O1Coord", "n"), "nnodes": ("O1NNodes", ""), "dump": ("O1Dump", ""),
         "interp": ("O1Interp", "s"), "trap": ("O1Trap", "n"),
         "file": ("O1File", "pnv"), "reread": ("O1Reread", "p")}
 OPS2 = {"set": ("O2Set", "nnv"), "get": ("O2Get", "nn"), "idx": ("O2Idx", "nn"), "idxset": ("O2IdxSet", "nnv"),
         "idxelem": ("O2IdxElem", "nnns"), "assign": ("O2Assign", "s"), "xsec": ("O2XSec", "n"), "ysec": ("O2YSec", "n"),
-        "varmat": ("O2VarMat", "n"), "apply": ("O2Apply", "en"), "coord": ("O2Coord", "nn"), "nnodes": ("O2NNodes", ""),
+        "varmat": ("O2VarMat", "n"), "apply": ("O2Apply", "en"), "coord": ("O2Coord", "nn"), "nnodes": ("O2NNodes", ""), "dump": ("O2Dump", ""),
         "trap": ("O2Trap", "n"), "sqtrap": ("O2SqTrap", "n"), "file": ("O2File", "p"), "filevar": ("O2FileVar", "pn")}
 ENDS1 = {"idxelem", "file", "reread"}
 ENDS2 = {"idxelem", "assign", "apply", "file", "filevar"}
@@ -224,6 +224,8 @@ def ref_step1(m, op):
         _chk(a[0] < n); return [X(m.nodes[a[0]])], None
     if name == "nnodes":
         return [('i', n)], None
+    if name == "dump":
+        return dump1(m), None
     if name == "interp":
         _chk(n >= 1)
         e = interp_expected(m, a[0])
@@ -237,8 +239,8 @@ def ref_step1(m, op):
         lines = [[m.nodes[k]] + list(m.vars[k]) for k in range(n)]
         out = lines_expected(lines, prec)
         tolf = lambda x: print_tol(x, prec)
-        if name == "reread":
-            return out, dump1_approx(m, tolf)
+        if name == "reread":      # always the last op of a history (the state becomes the rounded one)
+            return out + dump1_approx(m, tolf), None
         nv2, nodes2 = a[1], a[2]
         if nv2 == m.nvars:
             out += dump1_approx(m, tolf)
@@ -254,16 +256,14 @@ def ref_step1(m, op):
 def ref_hist1(elt, nvars, nodes, ops):
     zero = Fraction(0) if elt == 'rat' else 0.0
     m = Ref1(nvars, nodes, zero)
-    out = dump1(m)
+    out = []
     for op in ops:
         try:
-            res, dump = ref_step1(m, op)
+            res, _ = ref_step1(m, op)
             out += res
-            out += dump if dump is not None else dump1(m)
         except RefPanic:
             out.append(('P',))
             if op[0] in ENDS1: break
-            out += dump1(m)
     return out
 
 def ref_step2(m, op, elt):
@@ -301,6 +301,8 @@ def ref_step2(m, op, elt):
         _chk(inr(a[0], a[1])); return [X(m.xs[a[0]]), X(m.ys[a[1]])]
     if name == "nnodes":
         return [('i', m.nx), ('i', m.ny)]
+    if name == "dump":
+        return dump2(m)
     if name == "trap":
         _chk(not (m.nx == 0 or (m.nx >= 2 and m.ny == 0)))
         s, t = trap2_expected(m, a[0]); return [('~', s, t)]
@@ -325,14 +327,13 @@ def ref_step2(m, op, elt):
 def ref_hist2(elt, nvars, xs, ys, ops):
     zero = Fraction(0) if elt == 'rat' else 0.0
     m = Ref2(nvars, xs, ys, zero)
-    out = dump2(m)
+    out = []
     for op in ops:
         try:
             out += ref_step2(m, op, elt)
         except RefPanic:
             out.append(('P',))
             if op[0] in ENDS2: break
-        out += dump2(m)
     return out
 
 def compare_expected(elt, exp, got):
